@@ -8,7 +8,7 @@ correspondence: in-process round trip: the REAL pcp_expand_dirs()+pcp_client() i
                 stream, the reply classes and the complete destination file system are compared with
                 `pdshmodel pcp rt` (sender model + receiver model)
                 several receivers in ONE process (rpdcp): K real pcp_server() calls as threads, all connections open at
-                once, input interleaved chunk-wise, in half of the cases with two _error() calls forced to overlap (one
+                once, input interleaved chunk-wise, in some cases with the umask(2) calls at the start of two receivers interleaved, in others with two _error() calls forced to overlap (one
                 receiver parked between fdopen and errf until another has reported an error); replies per connection and the joint destination = one model run per
                 connection (theorems receivers_independent / receiver_alone state the product automaton)
 oracle:         (receivers are independent) the replies on each of the K connections equal those of the same real receiver
@@ -463,10 +463,10 @@ def run_cases(ctx, exe, cases, cnt, var, cov, dist, distinct, nested=False):
                 node = dict((pa, n) for _, t in c["srcs"] for pa, n in walk(t, []))[c["conflict"][0]]
                 top = next(t for _, t in c["srcs"] if t.name == c["conflict"][0].split(b"/")[0])
                 sent = node.name if b"/" in c["conflict"][0] else dest_name(c, b"", top)
-                rec = b" %d " % node.gen[1] + sent + b"\n"
-                k = full.find(rec)
+                # the file's own control record (a directory of the same name has a `D` record with size 0)
+                mrec = re.search(rb"C[0-7]{4} %d " % node.gen[1] + re.escape(sent) + rb"\n", full)
+                k = mrec.end() if mrec else -1
                 if k >= 0:
-                    k += len(rec)
                     want = full[:k] + full[k + node.gen[1] + 1:]
                     if pcp.unhx(f["c2s"]) != want:
                         ctx.disagreement("pcp sender after an error reply", "the client did not skip exactly the data "
@@ -667,7 +667,7 @@ def run_e2e(ctx, cov, dist):
     for n in ("pdcp", "rpdcp"):
         if not os.path.lexists(os.path.join(bindir, n)):
             os.symlink(os.path.join(repo, "src/pdsh/pdsh"), os.path.join(bindir, n))
-    nruns = 7 if ctx.quick() else 60
+    nruns = 8 if ctx.quick() else 60
     future = int(time.time()) + 50000000
     dist["e2e_runs"] = 0
     for k in range(nruns):
@@ -690,7 +690,7 @@ def run_e2e(ctx, cov, dist):
         # the first runs pin the corners of the command-line rules: exactly two list entries (-y), one entry (no -y),
         # -p on and off in both directions, no -r for plain files
         plan = [dict(p=1, shape="emptydir"), dict(p=1, shape="any"), dict(p=0, shape="file"), dict(p=0, shape="any"),
-                dict(p=1, shape="two"), dict(p=1, shape="file"), dict(p=0, shape="twofiles-destfile")]
+                dict(p=1, shape="two"), dict(p=1, shape="file"), dict(p=0, shape="twofiles-destfile"), dict(p=0, shape="unreadable")]
         shape = "any"
         if k < len(plan):
             p, shape = plan[k]["p"], plan[k]["shape"]
@@ -699,6 +699,14 @@ def run_e2e(ctx, cov, dist):
         elif shape == "file":
             trees = [Node(b"file.txt", "f", 0o640, 1300000001, gen=(77, 10240))]
             r = 0
+        elif shape == "unreadable":
+            # a file the (unprivileged) user cannot read INSIDE a source directory: it may cost that file (or the run may
+            # be refused), but pdcp must terminate, say so, and every other file that arrives must be intact
+            reverse = False
+            trees = [Node(b"tree", "d", 0o755, 1300000000, kids=[
+                Node(b"a_first", "f", 0o644, 1300000001, gen=(71, 11)), Node(b"b_unreadable", "f", 0, 1300000002, gen=(72, 37)),
+                Node(b"c_last", "f", 0o644, 1300000003, gen=(73, 11)),
+                Node(b"d_sub", "d", 0o755, 1300000004, kids=[Node(b"inner", "f", 0o644, 1300000005, gen=(74, 5))])])]
         elif shape == "twofiles-destfile":
             # two plain files, and on ONE target the destination is an existing regular file: that target must be
             # reported and its file left alone, the other targets get both files (seeded change C11-3: -y rule)
@@ -713,7 +721,8 @@ def run_e2e(ctx, cov, dist):
             if all(t.kind == "f" for t in trees) and rng.random() < 0.5:
                 r = 0
         for t in trees:
-            tame(t)
+            if shape != "unreadable":
+                tame(t)
         bw = os.fsencode(w)
         roots = [bw + b"/" + h.encode() + b"/rsrc" for h in HOSTS3] if reverse else [bw + b"/src"]
         destfile_host = "h2" if shape == "twofiles-destfile" else None
@@ -745,13 +754,40 @@ def run_e2e(ctx, cov, dist):
         full = ["setpriv", "--reuid", "1000", "--regid", "1000", "--clear-groups"] + env + cmd
         cj = dict(e2e=True, command=" ".join(cmd), sources=[describe(t) for t in trees])
         try:
-            pr = subprocess.run(full, cwd=w, stdout=subprocess.PIPE, stderr=subprocess.PIPE, timeout=120)
+            pr = subprocess.run(full, cwd=w, stdout=subprocess.PIPE, stderr=subprocess.PIPE,
+                                timeout=10 if shape == "unreadable" else 120)
         except subprocess.TimeoutExpired:
+            if shape == "unreadable":
+                subprocess.run(["pkill", "-u", "1000", "-f", wrapper])
+                cov["evaluations"] += 1
+                dist["e2e_runs"] += 1
+                ctx.offender("e2e:unreadable-source-file-hangs", "pdcp -r of a directory that holds a file the user cannot "
+                             "read does not terminate (the `C` record is sent, the data cannot be, the receiver waits for "
+                             "it and takes the following records for it): " + " ".join(cmd), cj)
+                shutil.rmtree(w, ignore_errors=True)
+                continue
             ctx.offender("timeout", "pdcp/rpdcp end to end run hangs: " + " ".join(cmd), cj)
             continue
         cov["evaluations"] += 1
         dist["e2e_runs"] += 1
         cj["rc"], cj["stderr"] = pr.returncode, pr.stderr.decode("latin-1")[-400:]
+        if shape == "unreadable":
+            if b"b_unreadable" not in pr.stderr:
+                ctx.offender("e2e:unreported", "a source file that cannot be read was not reported: rc=%d %s" % (
+                    pr.returncode, pr.stderr.decode("latin-1")[-200:]), cj)
+            for h in HOSTS3:
+                snap = pcp.snapshot(os.path.join(w, h, "dst"))
+                for path, r_ in snap.items():
+                    node = dict(walk(trees[0], [])).get(path)
+                    if r_["kind"] == "f" and (node is None or (r_["data"] != pcp.lcg_bytes(*node.gen) and not (
+                            node.name == b"b_unreadable" and r_["data"] == b""))):
+                        ctx.offender("e2e:fidelity", "target %s: %r arrived damaged next to a source file that cannot be "
+                                     "read" % (h, path), dict(cj, target=h))
+            dist["e2e_unreadable_source"] = "terminates, rc=%d, %s" % (
+                pr.returncode, "nothing copied" if len(pcp.snapshot(os.path.join(w, HOSTS3[0], "dst"))) <= 1
+                else "the other files copied")
+            shutil.rmtree(w, ignore_errors=True)
+            continue
         if destfile_host:
             kept = os.path.isfile(os.path.join(w, destfile_host, "dst")) and \
                 open(os.path.join(w, destfile_host, "dst"), "rb").read() == b"precious data in a plain file called dst\n"
@@ -837,17 +873,23 @@ def gen_multi(rng, k):
         # forced interleaving of two _error() calls: receiver a is parked inside its first one until receiver b
         # has been through one of its own
         c["race"] = tuple(rng.sample(sorted(errhosts), 2))
+    c["urace"] = None
+    if not c["race"] and not c["p"] and c["um"] and rng.random() < 0.4:
+        # forced interleaving of the umask(2) calls at the start of two receivers (A reads, B reads A's temporary 0,
+        # A restores, B "restores" 0): the process-wide umask stays 0
+        c["urace"] = tuple(rng.sample(range(K), 2))
     return c
 
 
 def multi_corpus(k0):
     """pinned: two hosts, one refused file each; once plainly interleaved, once with overlapping _error() calls"""
     out = []
-    for race in (None, (0, 1), (1, 0)):
+    for race, urace in ((None, None), ((0, 1), None), ((1, 0), None), (None, (0, 1)), (None, (1, 0))):
         conns = [dict(host=h, files=[(n, 20 + i, 0o644, 1234567890 + i, 7 * i + j) for i, n in enumerate((b"f1", b"f2", b"f3"))],
-                      blocked=[bl], dir=False, dirblocked=False, senddata=False, overwrite=False)
+                      blocked=[bl], dir=bool(urace), dirblocked=False, senddata=False, overwrite=False)
                  for j, (h, bl) in enumerate(((b"h1", b"f1"), (b"h2", b"f2")))]
-        out.append(dict(k=k0 + len(out), multi=True, p=0, um=0o22, conns=conns, cut="records", race=race))
+        out.append(dict(k=k0 + len(out), multi=True, p=0, um=0o27 if urace else 0o22, conns=conns, cut="records", race=race,
+                        urace=urace))
     return out
 
 
@@ -893,6 +935,7 @@ def multi_ents(c):
 
 def multi_json(c):
     return dict(multi=True, preserve=c["p"], umask="%o" % c["um"], cut=c["cut"], race=list(c["race"]) if c.get("race") else None,
+                umask_race=list(c["urace"]) if c.get("urace") else None,
                 conns=[dict(host=cn["host"].decode(), files=[[f[0].decode("latin-1")] + list(f[1:]) for f in cn["files"]],
                             blocked=[b.decode("latin-1") for b in cn["blocked"]], dir=cn["dir"],
                             dirblocked=cn["dirblocked"], senddata=cn["senddata"], overwrite=cn["overwrite"])
@@ -902,6 +945,7 @@ def multi_json(c):
 def multi_from_json(j, k):
     return dict(k=k, multi=True, p=int(j["preserve"]), um=int(j["umask"], 8), cut=j["cut"],
                 race=tuple(j["race"]) if j.get("race") else None,
+                urace=tuple(j["umask_race"]) if j.get("umask_race") else None,
                 conns=[dict(host=cn["host"].encode(), files=[tuple([f[0].encode("latin-1")] + f[1:]) for f in cn["files"]],
                             blocked=[b.encode("latin-1") for b in cn["blocked"]], dir=cn["dir"],
                             dirblocked=cn["dirblocked"], senddata=cn["senddata"], overwrite=cn["overwrite"])
@@ -917,7 +961,7 @@ def run_multi(ctx, exe, cases, cnt, var, cov, dist):
     jbase = os.path.join(ctx.scratch, "jails_multi")
     shutil.rmtree(jbase, ignore_errors=True)
     os.makedirs(jbase)
-    ops, mlines, index = [], [], []
+    ops, mlines, index, mlines0, index0 = [], [], [], [], []
     for c in cases:
         ents = multi_ents(c)
         c["ents"] = ents
@@ -927,7 +971,7 @@ def run_multi(ctx, exe, cases, cnt, var, cov, dist):
         streams = [multi_stream(c, cn) for cn in c["conns"]]
         ops.append(["multi %s /%s %d 1 %o %d %s %s" % (j, CWD.decode(), c["p"], c["um"], len(streams), " ".join(
             "%s %s" % (hx(b"dest"), ",".join(hx(x) for x in chunks)) for chunks in streams),
-            "%d:%d" % c["race"] if c.get("race") else "-")])
+            "%d:%d" % c["race"] if c.get("race") else "u%d:%d" % c["urace"] if c.get("urace") else "-")])
         index.append((c, None))
         mc = dict(p=c["p"], y=1, um=c["um"], dest=b"dest", stream=b"")
         mlines.append(c12_model_line(mc, ents, cnt, var))
@@ -938,12 +982,18 @@ def run_multi(ctx, exe, cases, cnt, var, cov, dist):
             ops.append(["sink %s /%s %s %d 1 %o 0 0 %s" % (js, CWD.decode(), hx(b"dest"), c["p"], c["um"], hx(s))])
             index.append((c, i))
             mlines.append(c12_model_line(dict(mc, stream=s), ents, cnt, var))
+            if c.get("urace"):
+                # what the receivers would do with the process-wide umask left at 0
+                mlines0.append(c12_model_line(dict(mc, stream=s, um=0), ents, cnt, var))
+                index0.append((c, i))
     t0 = int(time.time())
     impl = run_batch([exe], ops, timeout=1800, env=dict(os.environ, ASAN_OPTIONS="detect_leaks=0"))
-    mans = ctx.model("pcp", "".join(l + "\n" for l in mlines), timeout=1800)
-    res = {}
+    mans = ctx.model("pcp", "".join(l + "\n" for l in mlines + mlines0), timeout=1800)
+    res, res0 = {}, {}
     for (c, i), (ans, crash), ml in zip(index, impl, mans):
         res.setdefault(c["k"], {})[i] = (pcp.fields(ans[0]) if ans else {}, crash, pcp.parse_model(ml))
+    for (c, i), ml in zip(index0, mans[len(mlines):]):
+        res0.setdefault(c["k"], {})[i] = pcp.parse_model(ml)
     for c in cases:
         cov["evaluations"] += 1
         dist["multi_cases"] = dist.get("multi_cases", 0) + 1
@@ -1021,7 +1071,26 @@ def run_multi(ctx, exe, cases, cnt, var, cov, dist):
             dist["multi_errors_on_2+_connections"] = dist.get("multi_errors_on_2+_connections", 0) + 1
         if bad:
             continue
-        diffs = pcp.compare_fs(merged, pcp.snapshot(c["jail"]), t0)
+        snap = pcp.snapshot(c["jail"])
+        diffs = pcp.compare_fs(merged, snap, t0)
+        if c.get("urace") and f.get("parked") == "1":
+            dist["multi_umask_races"] = dist.get("multi_umask_races", 0) + 1
+        if diffs and c.get("urace") and f.get("parked") == "1":
+            # the narrow class of F11-UMASK-RACE: everything is exactly what the receivers create with umask 0
+            merged0 = dict(minit["fs"])
+            for i in range(len(c["conns"])):
+                for path, v in res0[c["k"]][i]["fs"].items():
+                    if v != minit["fs"].get(path):
+                        merged0[path] = v
+            if not pcp.compare_fs(merged0, snap, t0):
+                dist["multi_umask_races_umask_lost"] = dist.get("multi_umask_races_umask_lost", 0) + 1
+                ctx.offender("independent:umask-race-files-created-with-umask-0",
+                             "the umask(2) calls at the start of two receivers of one process interleaved (receiver %d: "
+                             "mask = umask(0); receiver %d: mask = umask(0) reads that 0; %d restores; %d restores 0): the "
+                             "process-wide umask stays 0, files and directories are created with the permission bits the "
+                             "umask %03o should have removed: %s" % (c["urace"][0], c["urace"][1], c["urace"][0],
+                                                                    c["urace"][1], c["um"], "; ".join(diffs[:3])), cj)
+                continue
         if diffs:
             ctx.disagreement("pcp multi fs", "; ".join(diffs[:5]), cj)
     shutil.rmtree(jbase, ignore_errors=True)
@@ -1115,6 +1184,9 @@ def run(ctx):
         ctx.log("receivers in one process: %d cases, %d with errors on >= 2 connections, %d with two overlapping "
                 "_error() calls" % (dist.get("multi_cases", 0), dist.get("multi_errors_on_2+_connections", 0),
                                     dist.get("multi_overlapping_errors", 0)))
+        dist["umask_variant"] = ("_sink reads and restores the process-wide umask (umask(0); umask(mask)): two receivers "
+                                 "starting at the same time can leave it at 0" if dist.get("multi_umask_races") else
+                                 "no umask(2) call without -p")
         dist["error_stream_variant"] = ("shared by all receivers of the process (static FILE *fp): overlapping _error() calls "
                                         "cross-route" if dist.get("multi_overlapping_errors_cross_routed") else
                                         "per call: overlapping _error() calls keep their own connection")
